@@ -1,0 +1,15 @@
+//go:build verif
+
+package generator
+
+// VerifSaver returns the GraphSaver the edit server creates in autosave mode
+// (AppServer.Handler) for this application and file path, so that the saved
+// file can be observed without going through HTTP. Only compiled with
+// -tags verif.
+func (a *App) VerifSaver(savePath string) *GraphSaver {
+	a.initGraphInstance()
+	return &GraphSaver{
+		app:      a,
+		savePath: savePath,
+	}
+}
